@@ -5,6 +5,8 @@ scalars (int64 / float32 / float64), 0-d NumPy / jax arrays and float32 jax arra
 behave as the python-float object does (the documented type, covered by the per-property harness) and meet the property's oracle.
 Variants that fail on the unchanged tree are listed in ARGCOV.md ("defect candidates") and are kept out of the units."""
 
+import contextlib
+
 import numpy as np
 
 from harness import leaves as lv
@@ -118,6 +120,16 @@ def _live(ctx, u, prop, entries):
             yield e
 
 
+@contextlib.contextmanager
+def _guard(ctx, u, prop, e):
+    """An object whose declared shape / behaviour contradicts its arguments makes the check itself raise: that is a finding, not a crash."""
+    try:
+        yield
+    except Exception as ex:  # noqa: BLE001
+        _viol(ctx, u, prop, f"{prop}:{e['name'].split('(')[0].split('[')[0]}:raised", f"{e['name']} built with {e['case']}: {type(ex).__name__}: {str(ex)[:160]} while the oracle was applied "
+              f"(declared shape {getattr(e.get('bij', e.get('dist')), 'shape', None)})", dict(entry=e["name"], args=e["case"]))
+
+
 def leaf_entries(ctx, reps=2):
     """name, bij (built with type variants), ref (same numbers as python floats / float64 jax arrays, or None), den(x) -> y or None, case.
     reps: passes through the leaf classes (the kinds are dealt evenly: 5 passes show a parameter half of its ten type variants)."""
@@ -129,24 +141,24 @@ def leaf_entries(ctx, reps=2):
     add = _adder(out, "leaf")
     for _ in range(reps):
         (l, lk), (s, sk) = _num(rng, -3, 3), _num(rng, 0.25, 4)
-        add("Affine(scalar loc, scalar scale)", lambda: dict(bij=B.Affine(K(l, lk), K(s, sk)), ref=B.Affine(l, s)), dict(loc=l, scale=s, kinds=[lk, sk]), den=lambda x, l=l, s=s: s * x + l)
-        add("Loc(scalar)", lambda: dict(bij=B.Loc(K(l, lk)), ref=B.Loc(l)), dict(loc=l, kinds=[lk]), den=lambda x, l=l: x + l)
-        add("Scale(scalar)", lambda: dict(bij=B.Scale(K(s, sk)), ref=B.Scale(s)), dict(scale=s, kinds=[sk]), den=lambda x, s=s: s * x)
+        add("Affine(scalar loc, scalar scale)", lambda: dict(bij=B.Affine(K(l, lk), K(s, sk)), ref=B.Affine(l, s)), dict(loc=l, scale=s, kinds=[lk, sk]), den=lambda x, l=l, s=s: s * x + l, shape=())
+        add("Loc(scalar)", lambda: dict(bij=B.Loc(K(l, lk)), ref=B.Loc(l)), dict(loc=l, kinds=[lk]), den=lambda x, l=l: x + l, shape=())
+        add("Scale(scalar)", lambda: dict(bij=B.Scale(K(s, sk)), ref=B.Scale(s)), dict(scale=s, kinds=[sk]), den=lambda x, s=s: s * x, shape=())
         hl, hs = _pick(rng, ARR_HOW), _pick(rng, ARR_HOW)
         la, sa = _arr(rng, rng.normal(0, 2, (3,)), hl), _arr(rng, rng.uniform(1, 4, (2, 1)), hs)
         add("Affine(array loc, array scale)", lambda: dict(bij=B.Affine(la, sa), ref=B.Affine(jnp.asarray(_np(la)), jnp.asarray(_np(sa)))), dict(loc=_np(la).tolist(), scale=_np(sa).tolist(), kinds=[hl, hs]),
-            den=lambda x, la=_np(la), sa=_np(sa): sa * x + la)
-        add("Scale(array)", lambda: dict(bij=B.Scale(sa), ref=B.Scale(jnp.asarray(_np(sa)))), dict(scale=_np(sa).tolist(), kinds=[hs]), den=lambda x, sa=_np(sa): sa * x)
+            den=lambda x, la=_np(la), sa=_np(sa): sa * x + la, shape=(2, 3))
+        add("Scale(array)", lambda: dict(bij=B.Scale(sa), ref=B.Scale(jnp.asarray(_np(sa)))), dict(scale=_np(sa).tolist(), kinds=[hs]), den=lambda x, sa=_np(sa): sa * x, shape=(2, 1))
         d, lower, ha = int(rng.integers(2, 5)), bool(rng.integers(0, 2)), _pick(rng, ARR_HOW)
         a = rng.normal(0, 1.5, (d, d))
         a[np.diag_indices(d)] = rng.uniform(1, 4, d)
         a = _arr(rng, a, ha)
         A = np.tril(_np(a)) if lower else np.triu(_np(a))
         add(f"TriangularAffine(scalar loc, arr, lower={lower})", lambda: dict(bij=B.TriangularAffine(K(l, lk), a, lower=lower), ref=B.TriangularAffine(l, jnp.asarray(_np(a)), lower=lower)),
-            dict(loc=l, arr=_np(a).tolist(), lower=lower, kinds=[lk, ha]), den=lambda x, A=A, l=l: A @ x + l)
+            dict(loc=l, arr=_np(a).tolist(), lower=lower, kinds=[lk, ha]), den=lambda x, A=A, l=l: A @ x + l, shape=(d,))
         m, mk = _num(rng, 1, 4)
         shape = [(), (3,), (2, 2)][int(rng.integers(0, 3))]
-        add("LeakyTanh(max_val, shape)", lambda: dict(bij=B.LeakyTanh(K(m, mk), shape), ref=B.LeakyTanh(m, shape)), dict(max_val=m, shape=list(shape), kinds=[mk]), den=lambda x, m=m: c07.ref_leaky_tanh(m, x), tol=ktol(mk))
+        add("LeakyTanh(max_val, shape)", lambda: dict(bij=B.LeakyTanh(K(m, mk), shape), ref=B.LeakyTanh(m, shape)), dict(max_val=m, shape=list(shape), kinds=[mk]), den=lambda x, m=m: c07.ref_leaky_tanh(m, x), tol=ktol(mk), shape=shape)
         # spline: knots / interval / min_derivative / softmax_adjust in every type variant, scalar and tuple interval, integer interval ends
         kn, knk = _num(rng, 2, 9, allowed=INT_KINDS)
         (md, mdk), (sadj, sak) = _num(rng, 0.125, 0.75, ints=False), _num(rng, 0, 2, allowed=NOJAX)  # a jax-array softmax_adjust is compared with 0 in python: no jit
@@ -161,18 +173,18 @@ def leaf_entries(ctx, reps=2):
         add("RationalQuadraticSpline(knots, interval, min_derivative, softmax_adjust)",
             lambda: dict(bij=setp(B.RationalQuadraticSpline(knots=K(kn, knk), interval=iarg, min_derivative=K(md, mdk), softmax_adjust=K(sadj, sak))),
                          ref=setp(B.RationalQuadraticSpline(knots=int(kn), interval=iref, min_derivative=md, softmax_adjust=sadj))),
-            dict(knots=int(kn), interval=iref, min_derivative=md, softmax_adjust=sadj, kinds=[knk, *ivks, mdk, sak]), tol=ktol(mdk, sak, *ivks))
+            dict(knots=int(kn), interval=iref, min_derivative=md, softmax_adjust=sadj, kinds=[knk, *ivks, mdk, sak]), tol=ktol(mdk, sak, *ivks), shape=())
         ns, nsk = _num(rng, 0.25, 3, allowed=NOJAX)  # a jax-array slope fails under every jit (python max / if on it): outside the documented float
         d = int(rng.integers(1, 4))
         p = rng.normal(0, 1.0, 2 * d + 1)
         setq = lambda o, p=p: eqx.tree_at(lambda q: q.params, o, jnp.asarray(p))
         add("Planar(negative_slope)", lambda: dict(bij=setq(B.Planar(jr.PRNGKey(0), dim=d, negative_slope=K(ns, nsk))), ref=setq(B.Planar(jr.PRNGKey(0), dim=d, negative_slope=ns))),
-            dict(dim=d, negative_slope=ns, params=p.tolist(), kinds=[nsk]), den=lambda x, d=d, ns=ns, p=p: c07.ref_planar(p[:d], p[d:2 * d], p[-1], ns, x), tol=ktol(nsk), jit=nsk.startswith("py"))
+            dict(dim=d, negative_slope=ns, params=p.tolist(), kinds=[nsk]), den=lambda x, d=d, ns=ns, p=p: c07.ref_planar(p[:d], p[d:2 * d], p[-1], ns, x), tol=ktol(nsk), jit=nsk.startswith("py"), shape=(d,))
         shape = [(5,), (2, 3), (2, 2, 2)][int(rng.integers(0, 3))]
         perm = rng.permutation(int(np.prod(shape))).reshape(shape)
         how = ["np.int64", "np.int32", "jax.int32"][int(rng.integers(0, 3))]
         parg = perm.astype(np.int64) if how == "np.int64" else perm.astype(np.int32) if how == "np.int32" else jnp.asarray(perm, dtype=jnp.int32)
-        add("Permute(permutation)", lambda: B.Permute(parg), dict(permutation=perm.tolist(), kinds=[how]), den=lambda x, perm=perm: x.ravel()[perm.ravel()].reshape(perm.shape))
+        add("Permute(permutation)", lambda: B.Permute(parg), dict(permutation=perm.tolist(), kinds=[how]), den=lambda x, perm=perm: x.ravel()[perm.ravel()].reshape(perm.shape), shape=perm.shape)
     return out
 
 
@@ -278,7 +290,8 @@ def _inverter(rng, case):
     """AutoregressiveBisectionInverter with lower / upper in every numeric type variant and non-default tol / max_iter."""
     from flowjax.bisection_search import AutoregressiveBisectionInverter as ABI
 
-    (lo, lok), (hi, hik) = _num(rng, -12, -2), _num(rng, 1, 9)
+    no32 = tuple(k for k in INT_KINDS + FLT_KINDS if "32" not in k)  # a float32 bound makes the whole search float32 (ARGCOV.md, defect candidate 2): not run
+    (lo, lok), (hi, hik) = _num(rng, -12, -2, allowed=no32), _num(rng, 1, 9, allowed=no32)
     tol, mi = [1e-11, 1e-12, 3e-11][int(rng.integers(0, 3))], int(rng.integers(80, 300))
     case.update(inverter=dict(lower=lo, upper=hi, tol=tol, max_iter=mi, kinds=[lok, hik]))
     return (lambda: ABI(lower=K(lo, lok), upper=K(hi, hik), tol=tol, max_iter=mi)), tol
@@ -295,8 +308,11 @@ def net_entries(ctx, flows=True):
     rng, out = ctx.rng, []
     add = _adder(out, "net", tol=1e-6, search=None)
 
-    def perturb(obj, scale):  # LeakyTanh nodes are kept: a NumPy-typed max_val leaves NumPy floats in its (non-parameter) fields
-        lts = lambda t: [n for n in jax.tree_util.tree_leaves(t, is_leaf=lambda n: isinstance(n, B.LeakyTanh)) if isinstance(n, B.LeakyTanh)]
+    from flowjax.bisection_search import AutoregressiveBisectionInverter as ABI
+
+    def perturb(obj, scale):  # LeakyTanh / inverter nodes are kept: their float fields (NumPy-typed max_val, search bounds) are not parameters
+        keep = lambda n: isinstance(n, (B.LeakyTanh, ABI))
+        lts = lambda t: [n for n in jax.tree_util.tree_leaves(t, is_leaf=keep) if keep(n)]
         new = flowcases.perturb(obj, rng, scale)
         return eqx.tree_at(lts, new, lts(obj)) if lts(obj) else new
 
@@ -431,19 +447,20 @@ def unit_c01(ctx):
                                      "round trips with conditioning-scaled tolerance, and-log-det point = plain point, type variant = python-float object; non-trivial = all")
     rng = ctx.rng
     for e in _live(ctx, u, "C01", _entries(ctx, ("leaf", "comb", "net"))):
-        b = e["bij"]
-        for rep in range(1 if e["dist"] is not None else 2):
-            (x, c), (x2, _) = _xc(rng, b, 1.5 if rep else 0.7), _xc(rng, b)
-            if "LeakyTanh" in e["name"] and rep:
-                x = x + np.sign(_np(x)) * e["case"]["max_val"]  # the linear tails
-            u.count((e["name"], e["case"], rep, _np(x).tolist()), tag=e["name"].split("(")[0])
-            numeric = None if e.get("search") is None else "transform" if type(b).__name__ == "Invert" else "inverse"
-            errs = roundtrip_errs(b, x, x2, c, e["tol"] if e["grp"] == "net" else 1e-9, e.get("search"), numeric)
-            if e["ref"] is not None:
-                errs += same_as_ref_errs(b, e["ref"], x, c, e["tol"])
-            if errs:
-                _viol(ctx, u, "C01", f"C01:{e['name']}", f"{e['name']} built with {e['case']}: " + "; ".join(errs[:2]), dict(entry=e["name"], args=e["case"], x=_np(x).tolist(),
-                      condition=None if c is None else _np(c).tolist()))
+        with _guard(ctx, u, "C01", e):
+            b = e["bij"]
+            for rep in range(1 if e["dist"] is not None else 2):
+                (x, c), (x2, _) = _xc(rng, b, 1.5 if rep else 0.7), _xc(rng, b)
+                if "LeakyTanh" in e["name"] and rep:
+                    x = x + np.sign(_np(x)) * e["case"]["max_val"]  # the linear tails
+                u.count((e["name"], e["case"], rep, _np(x).tolist()), tag=e["name"].split("(")[0])
+                numeric = None if e.get("search") is None else "transform" if type(b).__name__ == "Invert" else "inverse"
+                errs = roundtrip_errs(b, x, x2, c, e["tol"] if e["grp"] == "net" else 1e-9, e.get("search"), numeric)
+                if e["ref"] is not None:
+                    errs += same_as_ref_errs(b, e["ref"], x, c, e["tol"])
+                if errs:
+                    _viol(ctx, u, "C01", f"C01:{e['name']}", f"{e['name']} built with {e['case']}: " + "; ".join(errs[:2]), dict(entry=e["name"], args=e["case"], x=_np(x).tolist(),
+                          condition=None if c is None else _np(c).tolist()))
 
 
 def unit_c02(ctx):
@@ -453,21 +470,22 @@ def unit_c02(ctx):
                                            "python-float object; non-trivial = all")
     rng = ctx.rng
     for e in _live(ctx, u, "C02", _entries(ctx, ("leaf", "comb", "net"))):
-        b = _analytic(e)
-        for rep in range(2 if e["grp"] != "net" else 1):
-            x, c = _xc(rng, b, 1.2)
-            if "LeakyTanh" in e["name"] and rep:
-                x = x + np.sign(_np(x)) * e["case"]["max_val"]
-            u.count((e["name"], e["case"], rep, _np(x).tolist()), tag=e["name"].split("(")[0])
-            try:
-                errs = c02.autodiff_errors(None, b, _np(x), None if c is None else _np(c), tol=1e-6)
-            except Exception as ex:  # noqa: BLE001
-                errs = [f"raised {type(ex).__name__}: {str(ex)[:120]}"]
-            if e["ref"] is not None:
-                errs += [m for m in same_as_ref_errs(b, e["ref"], x, c, e["tol"]) if "log_det" in m]
-            if errs:
-                _viol(ctx, u, "C02", f"C02:{e['name']}", f"{e['name']} built with {e['case']}: " + "; ".join(errs[:2]), dict(entry=e["name"], args=e["case"], x=_np(x).tolist(),
-                      condition=None if c is None else _np(c).tolist()))
+        with _guard(ctx, u, "C02", e):
+            b = _analytic(e)
+            for rep in range(2 if e["grp"] != "net" else 1):
+                x, c = _xc(rng, b, 1.2)
+                if "LeakyTanh" in e["name"] and rep:
+                    x = x + np.sign(_np(x)) * e["case"]["max_val"]
+                u.count((e["name"], e["case"], rep, _np(x).tolist()), tag=e["name"].split("(")[0])
+                try:
+                    errs = c02.autodiff_errors(None, b, _np(x), None if c is None else _np(c), tol=1e-6)
+                except Exception as ex:  # noqa: BLE001
+                    errs = [f"raised {type(ex).__name__}: {str(ex)[:120]}"]
+                if e["ref"] is not None:
+                    errs += [m for m in same_as_ref_errs(b, e["ref"], x, c, e["tol"]) if "log_det" in m]
+                if errs:
+                    _viol(ctx, u, "C02", f"C02:{e['name']}", f"{e['name']} built with {e['case']}: " + "; ".join(errs[:2]), dict(entry=e["name"], args=e["case"], x=_np(x).tolist(),
+                          condition=None if c is None else _np(c).tolist()))
     c02._JAC.clear()
 
 
@@ -476,26 +494,27 @@ def unit_c07(ctx):
                                                 "== the documented function (NumPy reference) == the python-float object, incl. LeakyTanh at +-max_val and spline interval ends")
     rng, jnp = ctx.rng, _L()["jnp"]
     for e in _live(ctx, u, "C07", leaf_entries(ctx, 5)):
-        b = e["bij"]
-        for rep in range(3):
-            x = _np(_xc(rng, b, 2.0)[0])
-            if "LeakyTanh" in e["name"] and rep:  # the switch point, its inner neighbour, points 2^-j inside it, the linear tails
-                m = e["case"]["max_val"]
-                x = np.sign(x) * (rng.choice([m, np.nextafter(m, 0), m - 0.5, m - 0.25, m - 0.0625, m - 2.0 ** -6], x.shape) if rep == 1 else m + np.abs(x))
-            if "Spline" in e["name"]:
-                iv = e["case"]["interval"]
-                lo, hi = iv if isinstance(iv, tuple) else (-iv, iv)
-                x = np.asarray([lo, hi, max(np.nextafter(hi, np.inf), 2.3e-308) if hi == 0 else np.nextafter(hi, np.inf), rng.uniform(lo, hi), lo - rng.uniform(0, 2)][int(rng.integers(0, 5))]) if rep else x  # XLA flushes subnormals
-            u.count((e["name"], e["case"], x.tolist()), tag=e["name"].split("(")[0])
-            y, errs = _np(b.transform(jnp.asarray(x))), []
-            if e["den"] is not None and not np.allclose(y, _np(e["den"](x)), rtol=max(e["tol"], 1e-9), atol=max(e["tol"], 1e-9)):
-                errs.append(f"transform({np.ravel(x).tolist()}) = {np.ravel(y).tolist()}, the documented function gives {np.ravel(_np(e['den'](x))).tolist()}")
-            if e["ref"] is not None:
-                errs += same_as_ref_errs(b, e["ref"], jnp.asarray(x), None, e["tol"])
-            if "Spline" in e["name"] and (float(y) != float(x) if (x < lo or x > hi) else not lo <= float(y) <= hi):
-                errs.append(f"spline on [{lo}, {hi}] maps {float(x)!r} to {float(y)!r} (identity outside, onto the interval inside)")
-            if errs:
-                _viol(ctx, u, "C07", f"C07:{e['name']}", f"{e['name']} built with {e['case']}: " + "; ".join(errs[:2]), dict(entry=e["name"], args=e["case"], x=x.tolist()))
+        with _guard(ctx, u, "C07", e):
+            b = e["bij"]
+            for rep in range(3):
+                x = _np(_xc(rng, b, 2.0)[0])
+                if "LeakyTanh" in e["name"] and rep:  # the switch point, its inner neighbour, points 2^-j inside it, the linear tails
+                    m = e["case"]["max_val"]
+                    x = np.sign(x) * (rng.choice([m, np.nextafter(m, 0), m - 0.5, m - 0.25, m - 0.0625, m - 2.0 ** -6], x.shape) if rep == 1 else m + np.abs(x))
+                if "Spline" in e["name"]:
+                    iv = e["case"]["interval"]
+                    lo, hi = iv if isinstance(iv, tuple) else (-iv, iv)
+                    x = np.asarray([lo, hi, max(np.nextafter(hi, np.inf), 2.3e-308) if hi == 0 else np.nextafter(hi, np.inf), rng.uniform(lo, hi), lo - rng.uniform(0, 2)][int(rng.integers(0, 5))]) if rep else x  # XLA flushes subnormals
+                u.count((e["name"], e["case"], x.tolist()), tag=e["name"].split("(")[0])
+                y, errs = _np(b.transform(jnp.asarray(x))), []
+                if e["den"] is not None and not np.allclose(y, _np(e["den"](x)), rtol=max(e["tol"], 1e-9), atol=max(e["tol"], 1e-9)):
+                    errs.append(f"transform({np.ravel(x).tolist()}) = {np.ravel(y).tolist()}, the documented function gives {np.ravel(_np(e['den'](x))).tolist()}")
+                if e["ref"] is not None:
+                    errs += same_as_ref_errs(b, e["ref"], jnp.asarray(x), None, e["tol"])
+                if "Spline" in e["name"] and (float(y) != float(x) if (x < lo or x > hi) else not lo <= float(y) <= hi):
+                    errs.append(f"spline on [{lo}, {hi}] maps {float(x)!r} to {float(y)!r} (identity outside, onto the interval inside)")
+                if errs:
+                    _viol(ctx, u, "C07", f"C07:{e['name']}", f"{e['name']} built with {e['case']}: " + "; ".join(errs[:2]), dict(entry=e["name"], args=e["case"], x=x.tolist()))
 
 
 def unit_c08(ctx):
@@ -504,29 +523,30 @@ def unit_c08(ctx):
                                                    "cond_shape, EmbedCondition raw_cond_shape: four methods == the definition through the children (NumPy), declared shapes")
     rng, jnp = ctx.rng, _L()["jnp"]
     for e in _live(ctx, u, "C08", comb_entries(ctx)):
-        b, errs = e["bij"], []
-        e["shape"] = tuple(e["shape"])
-        if tuple(b.shape) != e["shape"] or b.cond_shape != e["cond"]:
-            errs.append(f"declares shape {b.shape} / cond_shape {b.cond_shape}, the definition gives {e['shape']} / {e['cond']}")
-        if "expect_len" in e and e["expect_len"] != e["got_len"]:
-            errs.append(f"has {e['got_len']} layers, the python slice of the layer tuple has {e['expect_len']}")
-        for rep in range(2):
-            x = jnp.asarray(rng.normal(0, 1.2, e["shape"]))
-            c = None if e["cond"] is None else jnp.asarray(rng.normal(0, 1, e["cond"]))
-            u.count((e["name"], e["case"], rep, _np(x).tolist()), tag=e["name"].split("(")[0])
-            try:
-                yd, ldd = e["den"](_np(x), None if c is None else _np(c))
-                (y, ld), y1 = _call(b.transform_and_log_det, x, c), _call(b.transform, x, c)
-                (xb, ldi), xb1 = _call(b.inverse_and_log_det, jnp.asarray(yd), c), _call(b.inverse, jnp.asarray(yd), c)
-                for nm, got, exp in (("transform_and_log_det point", y, yd), ("transform", y1, yd), ("log_det", ld, ldd), ("inverse_and_log_det point", xb, x), ("inverse", xb1, x), ("inverse log_det", ldi, -ldd)):
-                    if np.shape(got) != np.shape(exp) or not np.allclose(_np(got), _np(exp), rtol=1e-9, atol=1e-9):
-                        errs.append(f"{nm} = {np.ravel(_np(got)).tolist()[:6]}, the definition gives {np.ravel(_np(exp)).tolist()[:6]} at x = {np.ravel(_np(x)).tolist()[:6]}")
-            except Exception as ex:  # noqa: BLE001
-                errs.append(f"raised {type(ex).__name__}: {str(ex)[:120]}")
-            if errs:
-                _viol(ctx, u, "C08", f"C08:{e['name'].split('(')[0].split('[')[0]}", f"{e['name']} ({e['case']}): " + "; ".join(errs[:2]), dict(entry=e["name"], args=e["case"], x=_np(x).tolist(),
-                      condition=None if c is None else _np(c).tolist()))
-                break
+        with _guard(ctx, u, "C08", e):
+            b, errs = e["bij"], []
+            e["shape"] = tuple(e["shape"])
+            if tuple(b.shape) != e["shape"] or b.cond_shape != e["cond"]:
+                errs.append(f"declares shape {b.shape} / cond_shape {b.cond_shape}, the definition gives {e['shape']} / {e['cond']}")
+            if "expect_len" in e and e["expect_len"] != e["got_len"]:
+                errs.append(f"has {e['got_len']} layers, the python slice of the layer tuple has {e['expect_len']}")
+            for rep in range(2):
+                x = jnp.asarray(rng.normal(0, 1.2, e["shape"]))
+                c = None if e["cond"] is None else jnp.asarray(rng.normal(0, 1, e["cond"]))
+                u.count((e["name"], e["case"], rep, _np(x).tolist()), tag=e["name"].split("(")[0])
+                try:
+                    yd, ldd = e["den"](_np(x), None if c is None else _np(c))
+                    (y, ld), y1 = _call(b.transform_and_log_det, x, c), _call(b.transform, x, c)
+                    (xb, ldi), xb1 = _call(b.inverse_and_log_det, jnp.asarray(yd), c), _call(b.inverse, jnp.asarray(yd), c)
+                    for nm, got, exp in (("transform_and_log_det point", y, yd), ("transform", y1, yd), ("log_det", ld, ldd), ("inverse_and_log_det point", xb, x), ("inverse", xb1, x), ("inverse log_det", ldi, -ldd)):
+                        if np.shape(got) != np.shape(exp) or not np.allclose(_np(got), _np(exp), rtol=1e-9, atol=1e-9):
+                            errs.append(f"{nm} = {np.ravel(_np(got)).tolist()[:6]}, the definition gives {np.ravel(_np(exp)).tolist()[:6]} at x = {np.ravel(_np(x)).tolist()[:6]}")
+                except Exception as ex:  # noqa: BLE001
+                    errs.append(f"raised {type(ex).__name__}: {str(ex)[:120]}")
+                if errs:
+                    _viol(ctx, u, "C08", f"C08:{e['name'].split('(')[0].split('[')[0]}", f"{e['name']} ({e['case']}): " + "; ".join(errs[:2]), dict(entry=e["name"], args=e["case"], x=_np(x).tolist(),
+                          condition=None if c is None else _np(c).tolist()))
+                    break
 
 
 def unit_c13(ctx):
@@ -534,37 +554,40 @@ def unit_c13(ctx):
                                          "log_det; x of another shape, a missing required condition and a condition of another shape are rejected by all four methods")
     rng, jnp = ctx.rng, _L()["jnp"]
     for e in _live(ctx, u, "C13", _entries(ctx, ("comb", "leaf", "layers"))):
-        b = e["bij"]
-        x, c = _xc(rng, b)
-        shp, csh = tuple(b.shape), b.cond_shape
-        bad_x = [shp + (1,), (2,) + shp, shp[:-1] if shp else (1,), tuple(s + 1 for s in shp) if shp else (2,)]
-        bad_c = [] if csh is None else [csh + (1,), (3,) + csh, csh[:-1] if csh else (1,), tuple(s + 1 for s in csh) if csh else (2,)]
-        errs = []
-        for m in ("transform", "inverse", "transform_and_log_det", "inverse_and_log_det"):
-            f = getattr(b, m)
-            u.count((e["name"], e["case"], m), tag=m)
-            try:
-                r = _call(f, x, c)
-                pt, ld = r if isinstance(r, tuple) else (r, None)
-                if tuple(np.shape(pt)) != shp or (ld is not None and np.shape(ld) != ()):
-                    errs.append(f"{m} returns shapes {np.shape(pt)} / {None if ld is None else np.shape(ld)} for the declared shape {shp}")
-            except NotImplementedError:
-                continue
-            except Exception as ex:  # noqa: BLE001
-                errs.append(f"{m} rejects a well-formed input (x {shp}, condition {csh}): {type(ex).__name__}: {str(ex)[:80]}")
-                continue
-            trials = [(jnp.zeros(s), c, f"x of shape {s}") for s in bad_x if s != shp] + [(x, jnp.zeros(s), f"condition of shape {s}") for s in bad_c if s != csh]
-            trials += [(x, None, "no condition")] if csh is not None else []
-            for xx, cc, what in trials:
+        with _guard(ctx, u, "C13", e):
+            b = e["bij"]
+            x, c = _xc(rng, b)
+            shp, csh = tuple(b.shape), b.cond_shape
+            if e.get("shape") is not None and (shp != tuple(e["shape"]) or (e["grp"] == "comb" and csh != e["cond"])):
+                raise ValueError(f"declares shape {shp} / cond_shape {csh}, its arguments define {tuple(e['shape'])} / {e.get('cond')}")
+            bad_x = [shp + (1,), (2,) + shp, shp[:-1] if shp else (1,), tuple(s + 1 for s in shp) if shp else (2,)]
+            bad_c = [] if csh is None else [csh + (1,), (3,) + csh, csh[:-1] if csh else (1,), tuple(s + 1 for s in csh) if csh else (2,)]
+            errs = []
+            for m in ("transform", "inverse", "transform_and_log_det", "inverse_and_log_det"):
+                f = getattr(b, m)
+                u.count((e["name"], e["case"], m), tag=m)
                 try:
-                    _call(f, xx, cc)
-                    errs.append(f"{m} accepts {what} (declared shape {shp}, cond_shape {csh})")
+                    r = _call(f, x, c)
+                    pt, ld = r if isinstance(r, tuple) else (r, None)
+                    if tuple(np.shape(pt)) != shp or (ld is not None and np.shape(ld) != ()):
+                        errs.append(f"{m} returns shapes {np.shape(pt)} / {None if ld is None else np.shape(ld)} for the declared shape {shp}")
                 except NotImplementedError:
-                    break
-                except Exception:  # noqa: BLE001
-                    pass
-        if errs:
-            _viol(ctx, u, "C13", f"C13:{e['name'].split('(')[0].split('[')[0]}", f"{e['name']} ({e['case']}): " + "; ".join(errs[:3]), dict(entry=e["name"], args=e["case"]))
+                    continue
+                except Exception as ex:  # noqa: BLE001
+                    errs.append(f"{m} rejects a well-formed input (x {shp}, condition {csh}): {type(ex).__name__}: {str(ex)[:80]}")
+                    continue
+                trials = [(jnp.zeros(s), c, f"x of shape {s}") for s in bad_x if s != shp] + [(x, jnp.zeros(s), f"condition of shape {s}") for s in bad_c if s != csh]
+                trials += [(x, None, "no condition")] if csh is not None else []
+                for xx, cc, what in trials:
+                    try:
+                        _call(f, xx, cc)
+                        errs.append(f"{m} accepts {what} (declared shape {shp}, cond_shape {csh})")
+                    except NotImplementedError:
+                        break
+                    except Exception:  # noqa: BLE001
+                        pass
+            if errs:
+                _viol(ctx, u, "C13", f"C13:{e['name'].split('(')[0].split('[')[0]}", f"{e['name']} ({e['case']}): " + "; ".join(errs[:3]), dict(entry=e["name"], args=e["case"]))
 
 
 def unit_c14(ctx):
@@ -573,35 +596,36 @@ def unit_c14(ctx):
     L = _L()
     rng, jnp, jax, eqx = ctx.rng, L["jnp"], L["jax"], L["eqx"]
     for e in _live(ctx, u, "C14", _entries(ctx, ("leaf", "comb", "net"))):
-        if not e["jit"]:
-            continue
-        b = e["bij"]
-        slow = e["grp"] == "net" and "lock" in e["name"]
-        xs, c = jnp.stack([_xc(rng, b)[0] for _ in range(2)]), _xc(rng, b)[1]
-        ms = ["transform_and_log_det", "inverse_and_log_det"]  # they subsume the plain methods
-        if e["grp"] == "net":  # one direction per layer / flow and run (tracing a flow costs seconds); BNAF: the analytic side
-            ms = [ms[int(type(b).__name__ == "Invert")]] if slow else [ms[int(rng.integers(0, 2))]]
-        vm = ms[int(rng.integers(0, len(ms)))]  # vmap-vs-loop on one of them
-        for m in ms:
-            f = lambda bb, x, cc, m=m: getattr(bb, m)(x, cc)
-            try:
-                eager = [f(b, x, c) for x in xs]
-            except NotImplementedError:
+        with _guard(ctx, u, "C14", e):
+            if not e["jit"]:
                 continue
-            u.count((e["name"], e["case"], m), tag=m)
-            errs = []
-            try:
-                runs = [("eqx.filter_jit", lambda: eqx.filter_jit(f)(b, xs[0], c), eager[0]), ("jax.vmap", lambda: jax.vmap(lambda x: f(b, x, c))(xs), jax.tree_util.tree_map(lambda *a: jnp.stack(a), *eager))]
-                for nm, run, exp in (runs if m == vm else runs[:1]):
-                    got = run()
-                    for g, ex in zip(jax.tree_util.tree_leaves(got), jax.tree_util.tree_leaves(exp)):
-                        if np.shape(g) != np.shape(ex) or not np.allclose(_np(g), _np(ex), rtol=1e-8, atol=max(1e-9, 100 * e["search"] if slow else 0), equal_nan=True):
-                            errs.append(f"{m} under {nm} returns {np.ravel(_np(g)).tolist()[:4]}, eagerly {np.ravel(_np(ex)).tolist()[:4]}")
-            except Exception as ex:  # noqa: BLE001
-                errs.append(f"{m} raises {type(ex).__name__} under jit / vmap ({str(ex)[:90]}) but works eagerly")
-            if errs:
-                _viol(ctx, u, "C14", f"C14:{e['name'].split('(')[0].split('[')[0]}:{m}", f"{e['name']} built with {e['case']}: " + "; ".join(errs[:2]), dict(entry=e["name"], args=e["case"], method=m,
-                      x=_np(xs).tolist(), condition=None if c is None else _np(c).tolist()))
+            b = e["bij"]
+            slow = e["grp"] == "net" and "lock" in e["name"]
+            xs, c = jnp.stack([_xc(rng, b)[0] for _ in range(2)]), _xc(rng, b)[1]
+            ms = ["transform_and_log_det", "inverse_and_log_det"]  # they subsume the plain methods
+            if e["grp"] == "net":  # one direction per layer / flow and run (tracing a flow costs seconds); BNAF: the analytic side
+                ms = [ms[int(type(b).__name__ == "Invert")]] if slow else [ms[int(rng.integers(0, 2))]]
+            vm = ms[int(rng.integers(0, len(ms)))]  # vmap-vs-loop on one of them
+            for m in ms:
+                f = lambda bb, x, cc, m=m: getattr(bb, m)(x, cc)
+                try:
+                    eager = [f(b, x, c) for x in xs]
+                except NotImplementedError:
+                    continue
+                u.count((e["name"], e["case"], m), tag=m)
+                errs = []
+                try:
+                    runs = [("eqx.filter_jit", lambda: eqx.filter_jit(f)(b, xs[0], c), eager[0]), ("jax.vmap", lambda: jax.vmap(lambda x: f(b, x, c))(xs), jax.tree_util.tree_map(lambda *a: jnp.stack(a), *eager))]
+                    for nm, run, exp in (runs if m == vm else runs[:1]):
+                        got = run()
+                        for g, ex in zip(jax.tree_util.tree_leaves(got), jax.tree_util.tree_leaves(exp)):
+                            if np.shape(g) != np.shape(ex) or not np.allclose(_np(g), _np(ex), rtol=1e-8, atol=max(1e-9, 100 * e["search"] if slow else 0), equal_nan=True):
+                                errs.append(f"{m} under {nm} returns {np.ravel(_np(g)).tolist()[:4]}, eagerly {np.ravel(_np(ex)).tolist()[:4]}")
+                except Exception as ex:  # noqa: BLE001
+                    errs.append(f"{m} raises {type(ex).__name__} under jit / vmap ({str(ex)[:90]}) but works eagerly")
+                if errs:
+                    _viol(ctx, u, "C14", f"C14:{e['name'].split('(')[0].split('[')[0]}:{m}", f"{e['name']} built with {e['case']}: " + "; ".join(errs[:2]), dict(entry=e["name"], args=e["case"], method=m,
+                          x=_np(xs).tolist(), condition=None if c is None else _np(c).tolist()))
 
 
 # ------------------------------------------------------------------ distributions built from argument type variants
@@ -679,21 +703,22 @@ def unit_c05(ctx):
                                             "accessors return the constructor's values, == the float64-array object")
     rng, jnp = ctx.rng, _L()["jnp"]
     for e in _live(ctx, u, "C05", dist_entries(ctx)):
-        d = e["dist"]
-        pts = [np.asarray(e["rvs"](), dtype=float).reshape(d.shape) for _ in range(2)] + [np.asarray(rng.normal(0, 3, d.shape))]
-        if "Uniform" in e["name"]:
-            pts += [np.broadcast_to(np.asarray(e["case"]["minval"], float), d.shape), np.broadcast_to(np.asarray(e["case"]["maxval"], float), d.shape) + 0.5]
-        errs = []
-        for x in pts:
-            u.count((e["name"], e["case"], x.tolist()), tag=e["name"].split("(")[0])
-            with np.errstate(all="ignore"):
-                got, exp, gref = float(d.log_prob(jnp.asarray(x))), float(e["logpdf"](x)), float(e["ref"].log_prob(jnp.asarray(x)))
-            for nm, r in (("the textbook density (scipy)", exp), ("the float64-array object", gref)):
-                if np.isnan(got) or not (got == r or abs(got - r) <= max(e["tol"], 1e-9) * max(1.0, abs(r))):
-                    errs.append(f"log_prob({np.ravel(x).tolist()}) = {got!r}, {nm} gives {r!r}")
-        errs += _acc_errs(e)
-        if errs:
-            _viol(ctx, u, "C05", f"C05:{e['name']}", f"{e['name']} built with {e['case']}: " + "; ".join(errs[:2]), dict(entry=e["name"], args=e["case"]))
+        with _guard(ctx, u, "C05", e):
+            d = e["dist"]
+            pts = [np.asarray(e["rvs"](), dtype=float).reshape(d.shape) for _ in range(2)] + [np.asarray(rng.normal(0, 3, d.shape))]
+            if "Uniform" in e["name"]:
+                pts += [np.broadcast_to(np.asarray(e["case"]["minval"], float), d.shape), np.broadcast_to(np.asarray(e["case"]["maxval"], float), d.shape) + 0.5]
+            errs = []
+            for x in pts:
+                u.count((e["name"], e["case"], x.tolist()), tag=e["name"].split("(")[0])
+                with np.errstate(all="ignore"):
+                    got, exp, gref = float(d.log_prob(jnp.asarray(x))), float(e["logpdf"](x)), float(e["ref"].log_prob(jnp.asarray(x)))
+                for nm, r in (("the textbook density (scipy)", exp), ("the float64-array object", gref)):
+                    if np.isnan(got) or not (got == r or abs(got - r) <= max(e["tol"], 1e-9) * max(1.0, abs(r))):
+                        errs.append(f"log_prob({np.ravel(x).tolist()}) = {got!r}, {nm} gives {r!r}")
+            errs += _acc_errs(e)
+            if errs:
+                _viol(ctx, u, "C05", f"C05:{e['name']}", f"{e['name']} built with {e['case']}: " + "; ".join(errs[:2]), dict(entry=e["name"], args=e["case"]))
 
 
 def _key(rng):
@@ -737,10 +762,11 @@ def unit_c03(ctx):
     rng, jnp, B, D = ctx.rng, L["jnp"], L["B"], L["D"]
     items = []
     for e in _live(ctx, u, "C03", dist_entries(ctx)):
-        (l, lk), (s_, sk), (m, mk) = _num(rng, -2, 2), _num(rng, 0.5, 3), _num(rng, 1, 3)
-        loc = jnp.full(e["dist"].shape, l) if rng.integers(0, 2) else K(l, lk) + np.zeros(e["dist"].shape)
-        bij = B.Chain((B.Affine(loc, K(s_, sk)), B.LeakyTanh(K(m, mk), e["dist"].shape)))
-        items.append((e["name"], dict(base=e["case"], affine=[l, s_], max_val=m, kinds=[lk, sk, mk]), 1e-8, D.Transformed(e["dist"], bij)))
+        with _guard(ctx, u, "C03", e):
+            (l, lk), (s_, sk), (m, mk) = _num(rng, -2, 2), _num(rng, 0.5, 3), _num(rng, 1, 3)
+            loc = jnp.full(e["dist"].shape, l) if rng.integers(0, 2) else K(l, lk) + np.zeros(e["dist"].shape)
+            bij = B.Chain((B.Affine(loc, K(s_, sk)), B.LeakyTanh(K(m, mk), e["dist"].shape)))
+            items.append((e["name"], dict(base=e["case"], affine=[l, s_], max_val=m, kinds=[lk, sk, mk]), 1e-8, D.Transformed(e["dist"], bij)))
     items += [(e["name"], e["case"], 1e-8 if e["search"] is None else 1e4 * e["search"], e["dist"]) for e in _live(ctx, u, "C03", net_entries(ctx)) if e["dist"] is not None]
     for name, case, tol, d in items:
         for rep in range(2):
@@ -818,43 +844,45 @@ def unit_c11(ctx):
             _viol(ctx, u, "C11", f"C11:{name}", f"{name} built with {case}: " + "; ".join(errs[:2]), dict(entry=name, args=case))
 
     for e in _live(ctx, u, "C11", dist_entries(ctx)):
-        u.count((e["name"], e["case"]), tag=e["name"].split("(")[0])
-        errs, d2 = _acc_errs(e), W.unwrap(perturb(e["dist"], rng, 5.0))
-        if hasattr(d2, "bijection") and hasattr(d2.bijection, "scale") and not np.all(_np(d2.bijection.scale) > 0):
-            errs.append(f"scale {np.ravel(_np(d2.bijection.scale)).tolist()} not positive after moving the trainable arrays")
-        if "StudentT" in e["name"] and not np.all(_np(d2.base_dist.df) > 0):
-            errs.append("df not positive after moving the trainable arrays")
-        if "Mixture" in e["name"] and not abs(float(np.sum(np.exp(_np(d2.log_normalized_weights)))) - 1) <= 1e-9:
-            errs.append(f"mixture weights sum to {float(np.sum(np.exp(_np(d2.log_normalized_weights))))!r} after moving the trainable arrays")
-        if "Multivariate" in e["name"] and not np.all(np.diag(_np(d2.bijection.triangular)) > 0):
-            errs.append("Cholesky diagonal not positive after moving the trainable arrays")
-        report(e["name"], e["case"], errs)
+        with _guard(ctx, u, "C11", e):
+            u.count((e["name"], e["case"]), tag=e["name"].split("(")[0])
+            errs, d2 = _acc_errs(e), W.unwrap(perturb(e["dist"], rng, 5.0))
+            if hasattr(d2, "bijection") and hasattr(d2.bijection, "scale") and not np.all(_np(d2.bijection.scale) > 0):
+                errs.append(f"scale {np.ravel(_np(d2.bijection.scale)).tolist()} not positive after moving the trainable arrays")
+            if "StudentT" in e["name"] and not np.all(_np(d2.base_dist.df) > 0):
+                errs.append("df not positive after moving the trainable arrays")
+            if "Mixture" in e["name"] and not abs(float(np.sum(np.exp(_np(d2.log_normalized_weights)))) - 1) <= 1e-9:
+                errs.append(f"mixture weights sum to {float(np.sum(np.exp(_np(d2.log_normalized_weights))))!r} after moving the trainable arrays")
+            if "Multivariate" in e["name"] and not np.all(np.diag(_np(d2.bijection.triangular)) > 0):
+                errs.append("Cholesky diagonal not positive after moving the trainable arrays")
+            report(e["name"], e["case"], errs)
     for e in _live(ctx, u, "C11", leaf_entries(ctx, 5)):
-        b, cs, errs = e["bij"], e["case"], []
-        u.count((e["name"], cs), tag=e["name"].split("(")[0])
-        ub, up = W.unwrap(b), W.unwrap(perturb(b, rng, 5.0))
-        if "scale" in cs and not np.allclose(_np(ub.scale), np.broadcast_to(_np(cs["scale"]), ub.scale.shape), rtol=e["tol"], atol=e["tol"]):
-            errs.append(f"unwrapped scale {np.ravel(_np(ub.scale)).tolist()} is not the constructor's")
-        if "scale" in cs and not np.all(_np(up.scale) > 0):
-            errs.append("scale not positive after moving the trainable arrays")
-        if "arr" in cs:
-            A = (np.tril if cs["lower"] else np.triu)(_np(cs["arr"]))
-            if not np.allclose(_np(ub.triangular), A, rtol=1e-11, atol=1e-11) or not np.all(np.diag(_np(up.triangular)) > 0) or np.any((np.triu if cs["lower"] else np.tril)(_np(up.triangular), 1 if cs["lower"] else -1)):
-                errs.append(f"triangular {_np(ub.triangular).tolist()} is not the requested triangle of the given matrix / loses its positive diagonal or its zeros after moving the arrays")
-        if "Spline" in e["name"] and cs["softmax_adjust"] >= 0.125:
-            lo, hi = cs["interval"] if isinstance(cs["interval"], tuple) else (-cs["interval"], cs["interval"])
-            for f in ("x_pos", "y_pos"):
-                p = _np(getattr(up, f))
-                if p.shape != (cs["knots"] + 2,) or p[0] != lo or p[-1] != hi or not np.all(np.diff(p) > 0):
-                    errs.append(f"{f} = {p.tolist()} is not strictly increasing from {lo} to {hi} with {cs['knots']} inner knots")
-            if not np.all(_np(up.derivatives) >= cs["min_derivative"] * (1 - e["tol"])):
-                errs.append(f"derivatives {_np(up.derivatives).tolist()} below min_derivative {cs['min_derivative']}")
-        if "Planar" in e["name"]:
-            pl = up.get_planar()
-            wu = float(pl.weight @ pl.get_act_scale())
-            if float(pl.weight @ pl._act_scale) > -30 and not (1 + wu > 0 and 1 + cs["negative_slope"] * wu > 0):  # below: softplus underflows, w.u sits ON the bound (floats)
-                errs.append(f"planar layer not invertible: w.u = {wu!r} with slope {cs['negative_slope']} (needs 1 + w.u > 0 and 1 + slope * w.u > 0)")
-        report(e["name"], cs, errs)
+        with _guard(ctx, u, "C11", e):
+            b, cs, errs = e["bij"], e["case"], []
+            u.count((e["name"], cs), tag=e["name"].split("(")[0])
+            ub, up = W.unwrap(b), W.unwrap(perturb(b, rng, 5.0))
+            if "scale" in cs and not np.allclose(_np(ub.scale), np.broadcast_to(_np(cs["scale"]), ub.scale.shape), rtol=e["tol"], atol=e["tol"]):
+                errs.append(f"unwrapped scale {np.ravel(_np(ub.scale)).tolist()} is not the constructor's")
+            if "scale" in cs and not np.all(_np(up.scale) > 0):
+                errs.append("scale not positive after moving the trainable arrays")
+            if "arr" in cs:
+                A = (np.tril if cs["lower"] else np.triu)(_np(cs["arr"]))
+                if not np.allclose(_np(ub.triangular), A, rtol=1e-11, atol=1e-11) or not np.all(np.diag(_np(up.triangular)) > 0) or np.any((np.triu if cs["lower"] else np.tril)(_np(up.triangular), 1 if cs["lower"] else -1)):
+                    errs.append(f"triangular {_np(ub.triangular).tolist()} is not the requested triangle of the given matrix / loses its positive diagonal or its zeros after moving the arrays")
+            if "Spline" in e["name"] and cs["softmax_adjust"] >= 0.125:
+                lo, hi = cs["interval"] if isinstance(cs["interval"], tuple) else (-cs["interval"], cs["interval"])
+                for f in ("x_pos", "y_pos"):
+                    p = _np(getattr(up, f))
+                    if p.shape != (cs["knots"] + 2,) or p[0] != lo or p[-1] != hi or not np.all(np.diff(p) > 0):
+                        errs.append(f"{f} = {p.tolist()} is not strictly increasing from {lo} to {hi} with {cs['knots']} inner knots")
+                if not np.all(_np(up.derivatives) >= cs["min_derivative"] * (1 - e["tol"])):
+                    errs.append(f"derivatives {_np(up.derivatives).tolist()} below min_derivative {cs['min_derivative']}")
+            if "Planar" in e["name"]:
+                pl = up.get_planar()
+                wu = float(pl.weight @ pl.get_act_scale())
+                if float(pl.weight @ pl._act_scale) > -30 and not (1 + wu > 0 and 1 + cs["negative_slope"] * wu > 0):  # below: softplus underflows, w.u sits ON the bound (floats)
+                    errs.append(f"planar layer not invertible: w.u = {wu!r} with slope {cs['negative_slope']} (needs 1 + w.u > 0 and 1 + slope * w.u > 0)")
+            report(e["name"], cs, errs)
     # rejections, in every type variant of the offending number
     from flowjax.bisection_search import AutoregressiveBisectionInverter as ABI
     comp = eqx.filter_vmap(D.Normal)(jnp.zeros(3), jnp.ones(3))
@@ -893,10 +921,11 @@ def unit_c18(ctx):
                                             "random, x100, the LeakyTanh switch point / spline interval ends as given (integers, float32)")
     items = [(e["name"], e["case"], e["dist"], True) for e in _live(ctx, u, "C18", dist_entries(ctx))]
     for e in _live(ctx, u, "C18", _entries(ctx, ("leaf", "net"))):
-        b = e["bij"]
-        if "lock" in e["name"]:  # log_prob must use the analytic side of a BNAF (the bisection cannot be differentiated)
-            b = B.Invert(b) if type(b).__name__ != "Invert" else b
-        items.append((e["name"], e["case"], D.Transformed(D.StandardNormal(b.shape), b) if e["dist"] is None or "lock" in e["name"] else e["dist"], e["jit"]))
+        with _guard(ctx, u, "C18", e):
+            b = e["bij"]
+            if "lock" in e["name"]:  # log_prob must use the analytic side of a BNAF (the bisection cannot be differentiated)
+                b = B.Invert(b) if type(b).__name__ != "Invert" else b
+            items.append((e["name"], e["case"], D.Transformed(D.StandardNormal(b.shape), b) if e["dist"] is None or "lock" in e["name"] else e["dist"], e["jit"]))
     for name, case, d, jit in items:
         params, static = eqx.partition(d, eqx.is_inexact_array, is_leaf=lambda n: isinstance(n, W.NonTrainable))
         f = jax.value_and_grad(lambda p, x, c: eqx.combine(p, static).log_prob(x, *(() if c is None else (c,))), argnums=(0, 1))
